@@ -138,7 +138,7 @@ def rejection_sampling(ctx, world, ev):
     start, stop, ent = Sym("start", "int"), Sym("stop", "int"), Sym("entropy_f")
     outs = e2.run(f, [start, stop, ent], [], world.static.fork())
     rets = session.rets(outs)
-    ctx.require(rets, "unbiased_randrange has no returning path")
+    ctx.total(rets, outs, "R-total", "unbiased_randrange has no returning path")
     maxval = mk_app("Sub", (stop, start))
     bits = mk_app("Or", (App("bit_length", (maxval,)), Const(1)))
     nbytes_forms = width_forms(maxval)
